@@ -3,7 +3,9 @@ package main
 import (
 	"fmt"
 	"go/ast"
+	"go/token"
 	"go/types"
+	"strings"
 
 	"golang.org/x/tools/go/ssa"
 )
@@ -182,6 +184,14 @@ func checkC08(c *Ctx, r *Report) {
 		ruleMustCallOK(c, r, "C08.c", g31, "generator/swagen/swagen31."+sub, -1, "3.1: "+sub+" ran without error before a document is returned")
 	}
 
+	// securitySchemes are those of the configuration (shared rule with C04.c)
+	for _, e := range emitters {
+		checkSecuritySchemes(c, r, "C08.c", e.Ver, e.Pkg)
+	}
+
+	// C08.f precondition of the delegated $ref-closure check
+	checkRefConstruction(c, r)
+
 	// C08.d every response literal has a description
 	for _, e := range []struct {
 		pkgRel string
@@ -356,4 +366,137 @@ func checkTypedEnum31(c *Ctx, r *Report) {
 		viol = fmt.Sprintf("%s: enum value nodes are built without a Tag although the schema type is computed from the enum's Go type: scalars are re-typed by YAML resolution (a string enum whose constants look numeric is emitted as numbers; BuildSchemaValidationV31's oneof arm sets !!int/!!float, this function does not)", w.pos(fi.Decl.Pos()))
 	}
 	r.add("C08.e", "typed-enum", fn, "3.1 enum value nodes carry a type tag", []string{fn}, sites, viol)
+}
+
+// checkRefConstruction (C08.f): $ref closure is delegated to kin-openapi's validator,
+// which reports an unresolved reference only for a SchemaRef whose Value is nil. Hence a
+// SchemaRef that carries a Ref must be born without a Value, and may only receive a Value
+// that was looked up in components.schemas. Otherwise a dangling $ref is marshalled and
+// written instead of failing the command.
+func checkRefConstruction(c *Ctx, r *Report) {
+	w := c.W
+	sref := w.extType(pkgKin, "SchemaRef")
+	if sref == nil {
+		r.undecided("C08.f", "ref-closure", "swagen30:SchemaRef", "", "openapi3.SchemaRef not found")
+		return
+	}
+	var sites []string
+	viol := ""
+	nRef := 0
+	for _, fi := range w.funcsOfPkg("generator/swagen/swagen30") {
+		info := fi.Pkg.TypesInfo
+		fd := w.defsOf(fi)
+		// (1) every place that sets Ref
+		for _, sk := range w.fieldSinks(fi, sref, "Ref") {
+			if tv := info.Types[sk.Expr]; tv.Value != nil && constString(tv.Value) == "" {
+				continue
+			}
+			nRef++
+			sites = append(sites, w.pos(sk.Pos))
+		}
+		ast.Inspect(fi.Decl, func(n ast.Node) bool {
+			switch x := n.(type) {
+			case *ast.CompositeLit:
+				nt, ok := derefNamed(info.TypeOf(x))
+				if !ok || nt.Obj() != sref.Obj() {
+					return true
+				}
+				hasRef, hasValue := false, false
+				for _, el := range x.Elts {
+					if kv, ok := el.(*ast.KeyValueExpr); ok {
+						switch kv.Key.(*ast.Ident).Name {
+						case "Ref":
+							hasRef = true
+						case "Value":
+							hasValue = true
+						}
+					}
+				}
+				if hasRef && hasValue {
+					viol = fmt.Sprintf("%s: SchemaRef literal sets both Ref and Value: a dangling $ref would not be detected by the validator", w.pos(x.Pos()))
+				}
+			case *ast.AssignStmt:
+				for i, l := range x.Lhs {
+					se, ok := l.(*ast.SelectorExpr)
+					if !ok {
+						continue
+					}
+					sel := info.Selections[se]
+					if sel == nil || sel.Kind() != types.FieldVal {
+						continue
+					}
+					if nt, ok := derefNamed(sel.Recv()); !ok || nt.Obj() != sref.Obj() {
+						continue
+					}
+					switch se.Sel.Name {
+					case "Ref":
+						// x.Ref = ... : x must be a fresh SchemaRef literal without Value
+						fresh := false
+						if id, ok := se.X.(*ast.Ident); ok {
+							obj := info.Uses[id]
+							ds := fd.defs[obj]
+							fresh = len(ds) > 0
+							for _, d := range ds {
+								if d == x.Rhs[min(i, len(x.Rhs)-1)] {
+									continue
+								}
+								lit := compositeOf(d)
+								if lit == nil {
+									fresh = false
+									continue
+								}
+								for _, el := range lit.Elts {
+									if kv, ok := el.(*ast.KeyValueExpr); ok && kv.Key.(*ast.Ident).Name == "Value" {
+										fresh = false
+									}
+								}
+							}
+						}
+						if !fresh {
+							viol = fmt.Sprintf("%s: Ref is set on a SchemaRef that is not a fresh literal without Value (it may already carry a schema, hiding a dangling $ref from validation)", w.pos(x.Pos()))
+						}
+					case "Value":
+						// only for SchemaRefs that carry a Ref: the value must come from components.schemas
+						at := w.exprAtoms(fi, x.Rhs[min(i, len(x.Rhs)-1)])
+						recvAt := w.exprAtoms(fi, se.X)
+						carriesRef := false
+						for lit := range recvAt.Lits {
+							if strings.Contains(lit, "#/components/schemas/") {
+								carriesRef = true
+							}
+						}
+						if strings.Contains(exprString(se.X), "SchemaRef") {
+							carriesRef = true // schemaRefMap entries are the recorded $ref placeholders
+						}
+						if carriesRef {
+							sites = append(sites, w.pos(x.Pos()))
+							if !(at.Fields[pkgKin+".Components.Schemas"] || at.Fields[short(pkgKin)+".Components.Schemas"]) {
+								viol = fmt.Sprintf("%s: a $ref placeholder receives a Value that is not looked up in components.schemas (%s)", w.pos(x.Pos()), at)
+							}
+						}
+					}
+				}
+			}
+			return true
+		})
+	}
+	if nRef < 1 {
+		viol = "no construction of a $ref SchemaRef found in swagen30 (rule would pass vacuously)"
+	}
+	o := r.add("C08.f", "ref-closure", "swagen30:$ref-born-without-value", "3.0: a SchemaRef carrying a $ref is created without Value and only ever receives a Value looked up in components.schemas, so the validator's unresolved-reference check (Value == nil) sees every dangling $ref", []string{"generator/swagen/swagen30"}, sites, viol)
+	o.NonTrivial = true
+}
+
+func compositeOf(e ast.Expr) *ast.CompositeLit {
+	switch x := e.(type) {
+	case *ast.CompositeLit:
+		return x
+	case *ast.UnaryExpr:
+		if x.Op == token.AND {
+			return compositeOf(x.X)
+		}
+	case *ast.ParenExpr:
+		return compositeOf(x.X)
+	}
+	return nil
 }
